@@ -7,6 +7,7 @@ CONSTANTS
   NoRoot = 0
   HasPayload = {}
   Deviation = "none"
+  UseNodes = 0
   Retention = 64
 INVARIANTS ExecHeadSound MapSound LookupRight ErrorNotSlot
 CONSTRAINT HWM
